@@ -316,6 +316,7 @@ type streamOpts struct {
 	Repeats     int   // how many times PAT/PMT are repeated
 	NearPIDs    bool  // PES PIDs that differ in one bit from each other (and 0x0fff next to null packets)
 	PESTotals   []int // first PES PID: bounded units with exactly these PES_packet_length values instead of random ones
+	Unbounded   bool  // with PESTotals: unbounded video PES (PES_packet_length 0) with these payload sizes instead
 	LongUnit    int   // first PES PID: its first unit is an unbounded PES spread over at least this many packets
 }
 
@@ -410,7 +411,11 @@ func genRefStream(r *Rng, o streamOpts) *refStreamModel {
 		}
 		if pid == pesPIDs[0] && len(o.PESTotals) > 0 {
 			for _, t := range o.PESTotals {
-				addUnit(refMuxPESTotal(r, pid, 0xc0, t))
+				if o.Unbounded {
+					addUnit(refMuxPES(r, pid, 0xe0, t, true))
+				} else {
+					addUnit(refMuxPESTotal(r, pid, 0xc0, t))
+				}
 			}
 			continue
 		}
